@@ -203,4 +203,11 @@ def storeOps (pid cpv : Str) (gid : Int) (mkdirs : List Str) (chunks : List Str)
     ++ [.close (tmpOf pid cpv), .chown (tmpOf pid cpv) (-1) gid, .chmod (tmpOf pid cpv) entryPerms,
         .rename (tmpOf pid cpv) cpv]
 
+/-- a store that fails — an os-level call returns an error (`ENOSPC`, `EIO`, `EACCES` …) or the rendering of a
+value raises: the first `k` operations before the rename ran, then (`cleanup`: the `except OSError:
+os.remove(fp)` after a failed rename) the temp file may be removed.  Nothing else is ever done: in particular
+the entry being replaced is not touched. -/
+def failedStoreOps (pid cpv : Str) (gid : Int) (mkdirs chunks : List Str) (k : Nat) (cleanup : Bool) : List FsOp :=
+  ((storeOps pid cpv gid mkdirs chunks).dropLast).take k ++ (if cleanup then [.unlink (tmpOf pid cpv)] else [])
+
 end Pkgcore.C27
